@@ -634,14 +634,17 @@ pub fn run_case(n: u64, case: &CaseInput, children: usize, tmp_dir: &std::path::
     let exe2 = exe.clone();
     let file2 = file_s.clone();
     let handle = std::thread::spawn(move || spawn_children(&exe2, &file2, children));
-    // the same process, a second time ("in the same or in different processes"), on another thread
+    let parent = observe(case, 0);
+    // the same process, a second time ("in the same or in different processes"): strictly after the
+    // first (the property does not speak about concurrent compilations inside one process), but on
+    // another thread, i.e. with other thread-local RandomState keys and another stack
     let case2 = case.clone();
-    let handle2 = std::thread::Builder::new()
+    let parent2 = std::thread::Builder::new()
         .stack_size(64 * 1024 * 1024)
         .spawn(move || observe(&case2, 0))
-        .map_err(|e| e.to_string())?;
-    let parent = observe(case, 0);
-    let parent2 = handle2.join().map_err(|_| "second in-process observation panicked".to_string())?;
+        .map_err(|e| e.to_string())?
+        .join()
+        .map_err(|_| "second in-process observation panicked".to_string())?;
     let kids = handle.join().map_err(|_| "child thread panicked".to_string())?;
     let _ = std::fs::remove_file(&file);
 
